@@ -760,7 +760,7 @@ func cmdRun(prop string, args []string) int {
 	sort.Strings(classes)
 	exit := 0
 	nViol := 0
-	var knownLines, violLines []string
+	var knownLines, violLines, noRepro []string
 	shrunk := 0
 	for _, c := range classes {
 		h := firstByClass[c]
@@ -787,40 +787,74 @@ func cmdRun(prop string, args []string) int {
 		}
 		nViol += countByClass[c]
 		if shrunk >= 3 {
+			// reported, not replayed: the exit status is decided by the three classes that were
 			violLines = append(violLines, fmt.Sprintf("further violation class %s (%d occurrences), first at index %d: %s", c, countByClass[c], h.r.Index, clip(h.v.Msg, 300)))
-			exit = 1
 			continue
 		}
 		shrunk++
 		os.MkdirAll(verifDir+"/replays", 0o755)
-		rp := fmt.Sprintf("%s/replays/%s-%d-%s.json", verifDir, prop, h.r.Seed, sanitize(c))
-		bin := b.Bin
-		if h.r.Mode == 2 {
-			bin = b.RaceBin
+		// candidates: the first occurrence, then up to two more runs of the same class (a violation whose cause lies in a
+		// source of nondeterminism outside the simulator may not reproduce; another occurrence may)
+		cands := []hit{h}
+		for i := range all {
+			if len(cands) >= 3 {
+				break
+			}
+			if &all[i] == h.r {
+				continue
+			}
+			for _, v := range all[i].Viol {
+				if v.Class == c && matchKnown(known, prop, v) == nil {
+					cands = append(cands, hit{&all[i], v})
+					break
+				}
+			}
 		}
 		fmt.Printf("violation class %s (%d occurrences), first at index %d; minimising…\n", c, countByClass[c], h.r.Index)
-		if h.r.Mode == 2 {
-			// race leg: the interleaving is not controlled; the replay file keeps the seed and the report
-			writeRaceReplay(rp, prop, seed, tier, h.r, h.v, b.SiteHash)
-		} else {
-			cmd := exec.Command(bin, "-test.run", "^TestSim$", "-test.timeout", "0", "-test.count", "1", "-test.v")
-			cmd.Dir = b.Scratch
-			cmd.Env = append(os.Environ(), "SIM_PROP="+prop, "SIM_BASE="+strconv.FormatUint(seed, 10), "SIM_SHRINK="+strconv.FormatUint(h.r.Index, 10),
-				"SIM_REPLAY_OUT="+rp, "SIM_SHRINK_CLASS="+c, "SIM_MODE=1", "SIM_TIER="+tier, "SIM_SCRATCH="+b.Scratch, "SIM_SITEHASH="+b.SiteHash, "SIM_SHRINK_SECONDS="+strconv.Itoa(tc.ShrinkSec))
-			out, err := cmd.CombinedOutput()
-			if err != nil || !strings.Contains(string(out), "SHRINK-DONE") {
-				fmt.Printf("HARNESS: violation at index %d (class %s) did not reproduce in the minimiser process (exit 2):\n%s\n%s\n", h.r.Index, c, h.v.Msg, tail(string(out), 3000))
-				return 2
+		reproduced := false
+		for ci, h := range cands {
+			rp := fmt.Sprintf("%s/replays/%s-%d-%s.json", verifDir, prop, h.r.Seed, sanitize(c))
+			bin := b.Bin
+			if h.r.Mode == 2 {
+				bin = b.RaceBin
 			}
-			fmt.Print(grepLines(string(out), "SHRINK-"))
+			if h.r.Mode == 2 {
+				// race leg: the interleaving is not controlled; the replay file keeps the seed and the report
+				writeRaceReplay(rp, prop, seed, tier, h.r, h.v, b.SiteHash)
+			} else {
+				cmd := exec.Command(bin, "-test.run", "^TestSim$", "-test.timeout", "0", "-test.count", "1", "-test.v")
+				cmd.Dir = b.Scratch
+				cmd.Env = append(os.Environ(), "SIM_PROP="+prop, "SIM_BASE="+strconv.FormatUint(seed, 10), "SIM_SHRINK="+strconv.FormatUint(h.r.Index, 10),
+					"SIM_REPLAY_OUT="+rp, "SIM_SHRINK_CLASS="+c, "SIM_MODE=1", "SIM_TIER="+tier, "SIM_SCRATCH="+b.Scratch, "SIM_SITEHASH="+b.SiteHash, "SIM_SHRINK_SECONDS="+strconv.Itoa(tc.ShrinkSec))
+				out, err := cmd.CombinedOutput()
+				if err != nil || !strings.Contains(string(out), "SHRINK-DONE") {
+					fmt.Printf("HARNESS: violation at index %d (class %s, candidate %d of %d) did not reproduce in the minimiser process:\n%s\n%s\n", h.r.Index, c, ci+1, len(cands), h.v.Msg, tail(string(out), 3000))
+					continue
+				}
+				fmt.Print(grepLines(string(out), "SHRINK-"))
+			}
+			ok, rout := replayOnce(b, prop, rp, c, h.r.Mode)
+			if !ok {
+				fmt.Printf("HARNESS: replay file %s (candidate %d of %d) did not reproduce class %s in a fresh process:\n%s\n%s\n", rp, ci+1, len(cands), c, h.v.Msg, tail(rout, 3000))
+				os.Remove(rp)
+				continue
+			}
+			violLines = append(violLines, fmt.Sprintf("%s\nVIOLATION property=%s replay=%s", clip(h.v.Msg, 1500), prop, rp))
+			exit = 1
+			reproduced = true
+			break
 		}
-		ok, rout := replayOnce(b, prop, rp, c, h.r.Mode)
-		if !ok {
-			fmt.Printf("HARNESS: replay file %s did not reproduce class %s in a fresh process (exit 2):\n%s\n%s\n", rp, c, h.v.Msg, tail(rout, 3000))
+		if !reproduced {
+			noRepro = append(noRepro, c)
+		}
+	}
+	if len(noRepro) > 0 {
+		if exit != 1 {
+			// nothing replayed: that is trouble of the harness (or of a nondeterminism it does not own), never a VIOLATION
+			fmt.Printf("HARNESS: no occurrence of %v replayed in a fresh process (exit 2, nothing reported is to be believed)\n", noRepro)
 			return 2
 		}
-		violLines = append(violLines, fmt.Sprintf("%s\nVIOLATION property=%s replay=%s", clip(h.v.Msg, 1500), prop, rp))
-		exit = 1
+		fmt.Printf("HARNESS-NOTE: classes %v were seen but did not replay; the VIOLATION lines below are for classes that did\n", noRepro)
 	}
 
 	wall := time.Since(t0).Seconds()
